@@ -26,7 +26,9 @@ Alphabets ==
   "AMINO"  :> <<65, 67, 68, 69, 70, 71, 72, 73, 75, 76, 77, 78, 80, 81, 82, 83, 84, 86, 87, 89, 42>> @@   \* ACDEFGHIKLMNPQRSTVWY*
   "BAM"    :> <<61, 65, 67, 77, 71, 82, 83, 86, 84, 87, 89, 72, 75, 68, 66, 78>> @@                      \* =ACMGRSVTWYHKDBN
   "CIGAR"  :> <<77, 73, 68, 78, 83, 72, 80, 61, 88>> @@                                                   \* MIDNSHP=X
-  "STRAND" :> <<43, 45, 46>>                                                                              \* +-.
+  "STRAND" :> <<43, 45, 46>> @@                                                                           \* +-.
+  \* an alphabet a user defines (AlphabetEncoding("...")): it holds the last letter of the letter range, Z, and symbols
+  "USER"   :> <<65, 67, 68, 69, 70, 71, 72, 73, 75, 76, 77, 78, 80, 81, 82, 83, 84, 86, 87, 89, 66, 90, 88, 42>>      \* ACDEFGHIKLMNPQRSTVWYBZX*
 Names == DOMAIN Alphabets
 
 IsUpperLetter(b) == b \in 65..90
